@@ -9,17 +9,27 @@ constructor live in pyvc/th_tables2.py.  Functions under contract (real source, 
                          entry i at position count_true(mask, i) - with the induction lemmas about count_true: exactly the rows whose entry is true, in order
                          (this is the MASK contract of C06);  slice: every column cut by the same slice, row j of the result is one table row in every column;
                          column name: the stored column / KeyError;  tuple of 1..3 names: the list of the rows' key tuples (the projection _listby takes as
-                         callee contract);  list of names: exactly these columns, as they were (through dictattr.__getitem__ and the keyword constructor)
+                         callee contract);  list of names: exactly these columns, as they were (through dictattr.__getitem__ and the keyword constructor);
+                         list of k >= 1 integers: `list(zip(*self.values()))` is the list of the row tuples (axiom: transposition of the columns), indexed the
+                         Python way, then the constructor from rows + headers by its contract: all columns, k rows, row j is row item[j] of the receiver
+                         (negative indices from the end), IndexError iff an index is outside -len .. len-1, the receiver is left as it was
+                         (the row selection C02's xor ends with)
   dictable.__init__      with _data_columns_as_dict, _value, as_list inlined: from a dict of equally long lists, from keyword columns, from ([], column names),
-                         from a list of records (dict_concat by contract), from nothing
+                         from a list of records (dict_concat by contract), from nothing; from a list of n row tuples of length m and m distinct column names
+                         (a list of names, or the keys() of a dict; zipper by contract): exactly the named columns, column p lists row[i][p], i = 0..n-1,
+                         for n == 0 the named columns, all empty (pyvc/th_tables3.py); from one record whose cells are None, python lists or scalars
+                         (what concat does to every record, hence unlist to every row; as_list and lens by contract): ValueError iff two list cells have
+                         different lengths other than 1, else the keys as columns, all of one length, a cell of that length as it is and a scalar /
+                         None / one-element list repeated - the broadcast on construction
   dict_concat            whole body: no record, one record, records with one key set (sorted items / transpose / zip), several key sets (union, d.get)
   dictattr.__delitem__, dictable.__delattr__, dictattr.__sub__   the named column goes, the others are untouched, the table stays rectangular
   dictable.__add__ / concat for two tables   union of the columns, rows of the left operand then of the right one, in order, None for a column an operand lacks
   dictable.update        loop over __setitem__ with the invariant "keys passed are stored, the rest is as before" (values that fit)
 Callee contracts: lens, zipper, as_list on lists (proved in C19); __setitem__ inside update, __iter__ / the constructor / dict_concat / dictable.get inside the
-selection forms and concat (proved here, section named in each use text).
-Still bounded only (rac/C01.py): the list-of-integers form (constructor from rows + headers), scalar / length-1 broadcast on construction, DataFrame / path inputs,
-relabel, do, derived columns, concat of more than two tables, and the induction over whole operation histories (each proved operation keeps wf and agrees with the
+selection forms and concat (proved here, section named in each use text).  The sections constructor.rows and __getitem__.ints are grounded lazily: an
+obligation z3 discharges as it stands is kept, one it does not (a failing one, on a changed tree) is grounded so that it comes back `sat` with a model.
+Outside the rows + headers contract (its preconditions): rows of unequal length, a name count other than the row length, repeated names.
+Still bounded only (rac/C01.py): broadcast on construction for tuple / range / dict-view cells and for keyword columns, DataFrame / path inputs, relabel, do, derived columns, concat of more than two tables, and the induction over whole operation histories (each proved operation keeps wf and agrees with the
 list-of-records model clause by clause; chaining them is an argument, not a solver step).
 """
 import ast
@@ -34,6 +44,10 @@ from pyvc.th_tables import Tables, Key, KEY, fresh_table, wf, no_columns, nrows,
 from pyvc.sv import SV, I, B, S, T, NONE, fresh_name, fresh_int
 from pyvc.th_tables2 import (Rows, Init, Concat, Concats, Slices, Deletes, Names, Updates, NK, SK, SP, name_list, named, PySlice, SLEN, SIDX, slice_axiom, CNT, cnt_def, count_lemmas, fresh_rowlist, rows_of, mask_list, rowmap, fresh_colmap, as_table, CLS,
                               equally_long, same_columns, records_contract, empty_with_columns_contract, mask_contract, MASK_CLAUSES)
+from pyvc.th_lists import INT
+from pyvc.th_tables3 import (RowsHeaders, fresh_rows, rows_of_width, keyseq, distinct_names, rows_headers_contract, ROWS_CLAUSES, RecordCells, cell_axioms, record_clash,
+                              record_contract, RECORD_CLAUSES, ISL)
+from pyvc.th_tables2 import VLEN
 
 PROP = 'C01'
 REPLAY_MODULE = 'rac.C01_ded'
@@ -89,12 +103,21 @@ class Dictable:
         raise OutOfSubset('dict comprehension with %s values' % vnew.kind)
 
 
-def ground_section(ctx, n0, rounds=2, only=None):
+def ground_section(ctx, n0, rounds=2, only=None, lazy=False):
     """the obligations of a section are replaced by their quantifier-free grounding (pyvc/ground.py: universal hypotheses instantiated over the
-    index terms of the query - a weakening of the hypotheses, so `unsat` still proves the clause, and a failing clause comes back `sat`)"""
+    index terms of the query - a weakening of the hypotheses, so `unsat` still proves the clause, and a failing clause comes back `sat`).
+    lazy: an obligation that z3 discharges as it stands within a second is left as it is (grounding costs about a second of generation per
+    obligation); only the others - the failing ones on a changed tree - are grounded, so that they come back `sat` rather than `unknown`."""
     from pyvc.ground import ground_obligation
     for ob in ctx.obligations[n0:]:
         if ob.kind != 'syntactic' and (only is None or only(ob.name)):
+            if lazy:
+                s = z3.Solver()
+                s.set('timeout', 1000)
+                s.add(*ob.hyps)
+                s.add(Not(ob.goal))
+                if s.check() == z3.unsat:
+                    continue
             ground_obligation(ob, rounds=rounds)
     ctx.trust('engine:obligations of the table sections are discharged on their grounding (universal hypotheses replaced by instances over the index terms of the query)')
 
@@ -508,7 +531,7 @@ def constructor_obligations(ctx, m):
         ctx.absorb(ex)
         ctx.record_function(m, 'dictable.__init__', fdef, ex.stmts_executed, excluded=['keyword columns, scalar / length-1 broadcast on construction: bounded only'])
         ctx.record_function(m, '_data_columns_as_dict', inline['_data_columns_as_dict'][1], ex.stmts_executed,
-                            excluded=['paths, DataFrames, cursors, rows + headers, lists of pairs / of lists: bounded only'])
+                            excluded=['paths, DataFrames, cursors, lists of pairs / of lists: bounded only'])
         nret = 0
         for out in outs:
             hy = ex.facts + out.st.pc
@@ -521,6 +544,160 @@ def constructor_obligations(ctx, m):
         if nret == 0:
             raise OutOfSubset('constructor (%s) has no returning path' % label)
         ctx.cover('constructor.%s.pre' % label, pre)
+
+
+# ====================================================================================================== the constructor from rows + headers
+def _battery(kind):
+    """replay of the rows + headers / integer-list obligations: a fixed native battery of the clause family (rac/C01_ded.py), no model values needed"""
+    return lambda model: dict(kind=kind)
+
+
+def _post_all(ctx, n0, kind):
+    """obligations generated since n0 (posted here or raised inside the executor) are replayed by the native battery of their family"""
+    for ob in ctx.obligations[n0:]:
+        if ob.kind != 'syntactic':
+            ob.meta['replay'] = _battery(kind)
+            ob.meta['replay_without_model'] = True
+
+
+def rows_constructor_obligations(ctx, m):
+    """dictable(data = list of n row tuples, columns = m distinct names), every row of length m - dictable.__init__ with _data_columns_as_dict, _value and
+    as_list inlined from the source; zipper by its contract (C19): the table has exactly the named columns, each with n entries, and the column of the
+    p-th name lists row[i][p] for i = 0..n-1; for n == 0 these are the named columns, all empty.  Run for the names given as a python list and as the
+    keys() of a dict (what __getitem__ hands over).  This is the contract `RowsHeaders.call_value` gives to callers of `type(self)(rows, names)`."""
+    fdef = m.func('dictable.__init__')
+    ma = ctx.mod('_as_list')
+    inline = _inline(m)
+    inline['_data_columns_as_dict'] = (m, m.func('_data_columns_as_dict'))
+    inline['as_list'] = (ma, ma.func('as_list'))
+    W = Int('WIDTH')
+    for label in ('names', 'keys'):
+        n0 = len(ctx.obligations)
+        rows, rl, cells = fresh_rows('data')
+        if label == 'names':
+            columns = name_list('columns')
+        else:
+            columns = SV('tkeys', None, of=fresh_table('cols_of'))
+        ex = Exec(m, [RowsHeaders(), Names(), Init(), Rows(), Dictable(m), Tables(), Lists(), TypePreds(extra={'is_arr': ()}), ConcreteStr(m)], inline=inline,
+                  name='constructor.rows.' + label)
+        ks = keyseq(ex, columns)
+        pre = [rows.t >= 0, W >= 0, rows_of_width(rows, W), ks.m == W, distinct_names(ks)]
+        st = State()
+        st.pc += pre
+        outs = ex.run_function(st, 'dictable.__init__', [_new_table(), rows, columns], {})
+        ctx.absorb(ex)
+        ctx.record_function(m, 'dictable.__init__', fdef, ex.stmts_executed)
+        ctx.record_function(m, '_data_columns_as_dict', inline['_data_columns_as_dict'][1], ex.stmts_executed)
+        nret = 0
+        for out in outs:
+            hy = ex.facts + out.st.pc
+            if out.kind != 'return':
+                ctx.post('constructor.rows.%s.never_raises.%s' % (label, out.val), hy, BoolVal(False), kind='safety')
+                continue
+            nret += 1
+            for cname, goal in zip(ROWS_CLAUSES, rows_headers_contract(ks, rows, out.st.env['self'])):
+                ctx.post('constructor.rows.%s.%s' % (label, cname), hy, goal)
+        if nret == 0:
+            raise OutOfSubset('constructor (rows + headers, %s) has no returning path' % label)
+        ground_section(ctx, n0, rounds=3, lazy=True)
+        _post_all(ctx, n0, 'rows_headers')
+        ctx.cover('constructor.rows.%s.pre' % label, pre + [rows.t == 2, W == 2])
+        ctx.cover('constructor.rows.%s.no_row_reachable' % label, pre + [rows.t == 0, W == 2])
+
+
+def record_constructor_obligations(ctx, m):
+    """dictable(one record) - a Dict / dict whose cells are None, python lists or scalars (what concat makes of every record it is given, so what unlist
+    does to every row): dictable.__init__ with _data_columns_as_dict and _value inlined, as_list (C19) and lens (C19) by contract.  Two list cells whose
+    lengths differ and are both other than 1 raise ValueError; otherwise the table has the keys of the record as columns, all of one length (that of a
+    cell not of length 1 if there is one, else 1), a cell of that length is stored as it is and a scalar / None / one-element list is repeated:
+    the broadcast on construction."""
+    fdef = m.func('dictable.__init__')
+    inline = _inline(m)
+    inline['_data_columns_as_dict'] = (m, m.func('_data_columns_as_dict'))
+    n0 = len(ctx.obligations)
+    rec = rowmap(z3.Array('REC_dom', Key, z3.BoolSort()), z3.Array('REC_val', Key, Val))
+    ex = Exec(m, [RecordCells(), Init(), Rows(), Dictable(m), Tables(), Lists(), TypePreds(extra={'is_arr': ()}), ConcreteStr(m)], inline=inline, name='constructor.record')
+    for f in cell_axioms():
+        ex.fact(f)
+    st = State()
+    outs = ex.run_function(st, 'dictable.__init__', [_new_table(), rec, NONE], {})
+    ctx.absorb(ex)
+    ctx.record_function(m, 'dictable.__init__', fdef, ex.stmts_executed)
+    ctx.record_function(m, '_data_columns_as_dict', inline['_data_columns_as_dict'][1], ex.stmts_executed)
+    ctx.record_function(m, '_value', inline['_value'][1], ex.stmts_executed, excluded=['tuple, range and dict view values: path precondition of the record sections'])
+    clash = record_clash(rec)
+    nret = nraise = 0
+    for out in outs:
+        hy = ex.facts + out.st.pc
+        if out.kind != 'return':
+            nraise += 1
+            ctx.post('constructor.record.raises_only_ValueError_and_only_for_list_cells_of_different_lengths', hy, And(BoolVal(out.val == 'ValueError'), clash), kind='safety')
+            continue
+        nret += 1
+        ctx.post('constructor.record.returns_only_when_the_list_cells_have_one_length', hy, Not(clash))
+        for cname, goal in zip(RECORD_CLAUSES, record_contract(rec, out.st.env['self'])):
+            ctx.post('constructor.record.' + cname, hy, goal)
+    ground_section(ctx, n0, rounds=3, lazy=True)
+    _post_all(ctx, n0, 'record')
+    if nret == 0 or nraise == 0:
+        raise OutOfSubset('constructor (one record): expected a returning and a raising path')
+    ka, kb = key_of('a'), key_of('b')
+    va, vb = Select(rec.vals, ka), Select(rec.vals, kb)
+    ctx.cover('constructor.record.broadcast_reachable', cell_axioms() + [Select(rec.dom, ka), Select(rec.dom, kb), ISL(va), VLEN(va) == 3, Not(ISL(vb)), vb != NONEV])
+    ctx.cover('constructor.record.clash_reachable', cell_axioms() + [Select(rec.dom, ka), Select(rec.dom, kb), ISL(va), VLEN(va) == 3, ISL(vb), VLEN(vb) == 2, va != NONEV, vb != NONEV])
+
+
+# ====================================================================================================== __getitem__(list of ints)
+def ints_obligations(ctx, m):
+    """d[[i_0, ..., i_k-1]] (k >= 1 integers; [] is the empty-list branch of the mask section): `values = list(zip(*self.values()))` - the list of the
+    row tuples of a rectangular table (axiom: transposition of the columns) -, `[values[i] for i in item]` with Python list indexing, and the
+    constructor from rows + headers by its contract (constructor.rows.*).  The result has all the columns of the receiver and k rows, row j being row
+    item[j] of the receiver (a negative index counts from the end); IndexError iff some index is outside -len(d) .. len(d)-1; d is left as it was."""
+    fdef = m.func('dictable.__getitem__')
+    n = Int('N')
+    t = fresh_table('self')
+    item = fresh_list(INT, 'item')
+    item.f['elems'] = 'int'
+    L, iarr = item.t, item.arrs[0]
+    n0 = len(ctx.obligations)
+    ex = Exec(m, [RowsHeaders(construct='contract'), Slices(), Init(), Rows(known=[(t, n)]), GetItem(), Dictable(m), Tables(), Lists(), TypePreds(extra={'is_arr': ()})],
+              inline=_inline(m), name='__getitem__.ints')
+    st = State(env={'self': t})
+    pre = [wf(t, n), L >= 1]
+    st.pc += pre
+    outs = ex.run_function(st, 'dictable.__getitem__', [t, item], {})
+    ctx.absorb(ex)
+    ctx.record_function(m, 'dictable.__getitem__', fdef, ex.stmts_executed)
+    R = nrows(t, n)
+    j = Int('j!in')
+    c = Const('c!in', Key)
+    in_range = lambda x: And(-R <= x, x < R)
+    row_of = lambda x: If(x < 0, x + R, x)
+    nret = nraise = 0
+    for out in outs:
+        hy = ex.facts + out.st.pc
+        if out.kind == 'raise':
+            nraise += 1
+            ctx.post('__getitem__.ints.raises_only_IndexError_and_only_for_an_index_out_of_range', hy,
+                     And(BoolVal(out.val == 'IndexError'), Exists([j], And(0 <= j, j < L, Not(in_range(iarr[j])))), same_table(out.st.env['self'], t)), kind='safety')
+            continue
+        nret += 1
+        o = out.val
+        if o.kind != 'table':
+            raise OutOfSubset('integer-list selection does not return a table')
+        ctx.post('__getitem__.ints.returns_only_when_every_index_is_in_range', hy, ForAll([j], Implies(And(0 <= j, j < L), in_range(iarr[j]))))
+        ctx.post('__getitem__.ints.keeps_all_columns', hy, ForAll([c], o.dom[c] == t.dom[c]))
+        ctx.post('__getitem__.ints.rectangular_with_one_row_per_index', hy, wf(o, L))
+        ctx.post('__getitem__.ints.row_j_is_row_item_j_of_the_receiver', hy,
+                 ForAll([c, j], Implies(And(t.dom[c], 0 <= j, j < L), o.carr[c][j] == t.carr[c][row_of(iarr[j])])))
+        ctx.post('__getitem__.ints.receiver_unchanged', hy, same_table(out.st.env['self'], t))
+    ground_section(ctx, n0, rounds=3, lazy=True)
+    _post_all(ctx, n0, 'getitem_ints')
+    if nret == 0 or nraise == 0:
+        raise OutOfSubset('integer-list selection: expected a returning and a raising path')
+    ka = key_of('a')
+    ctx.cover('__getitem__.ints.pre', pre + [n == 3, t.dom[ka], L == 2, iarr[0] == 2, iarr[1] == -1])
+    ctx.cover('__getitem__.ints.out_of_range_reachable', pre + [n == 3, t.dom[ka], L == 1, iarr[0] == 3])
 
 
 # ====================================================================================================== dict_concat
@@ -666,7 +843,7 @@ def build(ctx):
         outs = ex.run_function(st, 'dictable.__getitem__', [t, I(i)], {})
         ctx.absorb(ex)
         ctx.record_function(m, 'dictable.__getitem__', fdef, ex.stmts_executed,
-                            excluded=['slice, list (names / mask / integer list), column name, tuple and callable items: bounded only; this run: item is an int'])
+                            excluded=['callable items: bounded only; this run: item is an int'])
         c = Const('c!row', Key)
         nret = 0
         for out in outs:
@@ -693,6 +870,9 @@ def build(ctx):
     ctx.guarded('update', lambda: update_obligations(ctx, m))
     ctx.guarded('__add__', lambda: concat_obligations(ctx, m))
     ctx.guarded('constructor', lambda: constructor_obligations(ctx, m))
+    ctx.guarded('constructor.rows', lambda: rows_constructor_obligations(ctx, m))
+    ctx.guarded('constructor.record', lambda: record_constructor_obligations(ctx, m))
+    ctx.guarded('__getitem__.ints', lambda: ints_obligations(ctx, m))
     ctx.guarded('dict_concat', lambda: dict_concat_obligations(ctx, m))
     ctx.trust('the induction over operation histories (every proved operation keeps wf and its model clause; chaining is an argument) and the operations listed as bounded only in the module docstring')
 
